@@ -4,6 +4,11 @@
 #ifdef TQ_WITH_AIO
 nni_time nni_clock(void)
 {
+#ifdef TQ_TIMES
+	/* concrete-time case: every read is one millisecond later */
+	g_now = g_now + 1;
+	return (g_now);
+#endif
 	nni_time t = nondet_u64();
 	/* ASSUMED: millisecond clock far from wrap-around; STRICTLY increasing from read to read
 	 * (time passes between two iterations of the expire loop: bounds the a_expire == now spin) */
@@ -29,15 +34,18 @@ vp_cancel(nni_aio *aio, void *arg, nng_err rv)
 	__CPROVER_assert(g_eq->eq_stop || aio->a_expire < g_now, "C02: a timeout fires only for an operation whose deadline has passed (a_expire < now)");
 	__CPROVER_assert(rv == (g_eq->eq_stop ? NNG_ESTOPPED : NNG_ETIMEDOUT) || (!g_eq->eq_stop && rv == NNG_OK && g_ok0[i] && g_fire_n[i] == 0),
 	    "expiry code: NNG_ESTOPPED when the queue is stopping, else NNG_ETIMEDOUT (0 only for an operation that asked for it: a_expire_ok)");
+	g_in_cancel = true;
 	g_fire_n[i]++;
 	g_fire_rv[i]  = (int) rv;
 	g_fire_arg[i] = arg;
-	if (g_race && aio == g_a0 && !g_race_done && !g_a1->a_sleep && g_a1->a_cancel_fn != NULL) {
+	if (g_race && aio == g_a0 && !g_race_done && !g_a1->a_sleep && g_a1->a_cancel_fn != NULL && !g_a1->a_stop && !g_eq->eq_stop) {
 		/* What other threads may do while the expire lock is dropped: the provider of the other aio
-		 * completes its operation normally (REAL nni_aio_finish_sync: the completion callback runs) and the consumer starts the next
-		 * operation on it with a fresh relative timeout (REAL nni_aio_set_timeout / nni_aio_start). */
+		 * completes its operation normally (REAL nni_aio_finish) and the consumer starts the next
+		 * operation on it with a fresh relative timeout (REAL nni_aio_set_timeout / nni_aio_start).
+		 * (Not for a stopped aio / queue: the start would be refused and complete through the task that
+		 * is still queued -- no worker thread runs in this model.) */
 		g_race_done = true;
-		nni_aio_finish_sync(g_a1, NNG_OK, 0); /* callback runs (vp_cb), then: */
+		nni_aio_finish(g_a1, NNG_OK, 0); /* its completion task is queued */
 		nni_aio_set_timeout(g_a1, g_race_timeout);
 		(void) nni_aio_start(g_a1, vp_cancel, NULL);
 	}
@@ -45,20 +53,16 @@ vp_cancel(nni_aio *aio, void *arg, nng_err rv)
 		/* the usual provider: "still on my list => I complete it with rv" */
 		nni_aio_finish_error(aio, rv);
 	}
+	g_in_cancel = false;
 }
 nni_aio_cancel_fn vp_cancel_ref = vp_cancel;
 
-/* the expire thread goes to sleep until `when` */
+/* Sequential stand-in for the rest of the world, so that the thread body terminates after ONE pass
+ * (one per-iteration decision): the providers take the still listed aios off the list (as
+ * nni_aio_finish_impl does) and the queue is told to exit. */
 static void
-vp_eq_sleep(nni_cv *cv, nni_time when)
+vp_eq_world_finishes(void)
 {
-	__CPROVER_assert(VP_HELD((nni_mtx *) cv->mtx), "cv wait with the cv's own mutex held");
-	g_eq_sleeps++;
-	/* it sleeps only when nothing listed is overdue, and not beyond the earliest deadline */
-	__CPROVER_assert(!nni_list_node_active(&g_a0->a_expire_node) || (when <= g_a0->a_expire && g_now <= g_a0->a_expire), "sleep: not beyond the deadline of a listed aio");
-	__CPROVER_assert(!nni_list_node_active(&g_a1->a_expire_node) || (when <= g_a1->a_expire && g_now <= g_a1->a_expire), "sleep: not beyond the deadline of a listed aio");
-	/* Sequential stand-in for the rest of the world, so that the thread body terminates: the providers
-	 * take the still listed aios off the list (as nni_aio_finish_impl does) and the queue is told to exit. */
 	if (nni_list_node_active(&g_a0->a_expire_node)) {
 		nni_list_node_remove(&g_a0->a_expire_node);
 		g_left[0]++;
@@ -68,6 +72,23 @@ vp_eq_sleep(nni_cv *cv, nni_time when)
 		g_left[1]++;
 	}
 	g_eq->eq_exit = true;
+	/* the list is empty now; writing the (asserted) same value again is a no-op that lets symbolic
+	 * execution see a CONSTANT empty list, so that the thread's exit test is decided during symex */
+	__CPROVER_assert(g_eq->eq_list.ll_head.ln_next == &g_eq->eq_list.ll_head && g_eq->eq_list.ll_head.ln_prev == &g_eq->eq_list.ll_head,
+	    "model: the expire list is empty once the remaining aios have been taken off");
+	g_eq->eq_list.ll_head.ln_next = &g_eq->eq_list.ll_head;
+	g_eq->eq_list.ll_head.ln_prev = &g_eq->eq_list.ll_head;
+}
+/* the expire thread goes to sleep until `when` */
+static void
+vp_eq_sleep(nni_cv *cv, nni_time when)
+{
+	__CPROVER_assert(VP_HELD((nni_mtx *) cv->mtx), "cv wait with the cv's own mutex held");
+	g_eq_sleeps++;
+	/* it sleeps only when nothing listed is overdue, and not beyond the earliest deadline */
+	__CPROVER_assert(!nni_list_node_active(&g_a0->a_expire_node) || (when <= g_a0->a_expire && g_now <= g_a0->a_expire), "sleep: not beyond the deadline of a listed aio");
+	__CPROVER_assert(!nni_list_node_active(&g_a1->a_expire_node) || (when <= g_a1->a_expire && g_now <= g_a1->a_expire), "sleep: not beyond the deadline of a listed aio");
+	vp_eq_world_finishes();
 }
 /* every wake-up on the expire cv happens under the expire lock, g_now being the clock value of the
  * current iteration: a sleep (nng_sleep_aio) that has been completed by the loop had its deadline behind it */
@@ -76,6 +97,11 @@ vp_eq_wake_check(void)
 {
 	__CPROVER_assert(!(g_sleep0[0] && !g_a0->a_sleep && g_left[0] == 0) || g_eq->eq_stop || g_a0->a_expire < g_now, "C02: a sleep is completed by the expire thread only after its deadline (a_expire < now)");
 	__CPROVER_assert(!(g_sleep0[1] && !g_a1->a_sleep && g_left[1] == 0) || g_eq->eq_stop || g_a1->a_expire < g_now, "C02: a sleep is completed by the expire thread only after its deadline (a_expire < now)");
+	if (!g_in_cancel) {
+		/* the wake-up that ends a pass of the expire thread (not the one of nni_aio_expire_add in the race model) */
+		g_passes++;
+		vp_eq_world_finishes();
+	}
 }
 #else
 static void vp_eq_wake_check(void) {}
